@@ -868,7 +868,49 @@ def gm_fit_state(ctx):
                                                                 "weights": three("weights")})})
 
 
+def lemma_partition_step(ctx):
+    """L-PART, machine-checked: if (OWN, POS) / E is a bijection between range(n) and the (cluster, position) pairs of C clusters, and
+    the label-0 / label-1 positions of cluster p are enumerated by sa / sb (L-MASK selection facts: order isomorphisms onto the
+    positions carrying each label), then after `clusters.pop(p); clusters.extend([E(p, sa(.)), E(p, sb(.))])` the explicitly
+    constructed (OWN2, POS2) / E2 is again such a bijection, for C + 1 clusters.  Base case (one cluster arange(n)) is OWN = 0, POS = id."""
+    I=z3.IntSort()
+    n,C,p,m1,m2=z3.Ints("n C p m1 m2")
+    LEN=z3.Function("LEN",I,I); E=z3.Function("E",I,I,I); OWN=z3.Function("OWN",I,I); POS=z3.Function("POS",I,I)
+    lab=z3.Function("lab",I,I)   # label of position j of the parent (0/1)
+    sa=z3.Function("sa",I,I); sb=z3.Function("sb",I,I); ia=z3.Function("ia",I,I); ib=z3.Function("ib",I,I)
+    x,c,j,q=z3.Ints("x c j q")
+    hyp=[C>=1, p>=0, p<C, n>=1,
+     z3.ForAll([x], z3.Implies(z3.And(x>=0,x<n), z3.And(OWN(x)>=0,OWN(x)<C,POS(x)>=0,POS(x)<LEN(OWN(x)),E(OWN(x),POS(x))==x)), patterns=[OWN(x)]),
+     z3.ForAll([c,j], z3.Implies(z3.And(c>=0,c<C,j>=0,j<LEN(c)), z3.And(E(c,j)>=0,E(c,j)<n,OWN(E(c,j))==c,POS(E(c,j))==j)), patterns=[E(c,j)]),
+     # children: label-0 and label-1 positions of the parent (L-MASK selection facts)
+     z3.ForAll([j], z3.Implies(z3.And(j>=0,j<LEN(p)), z3.Or(lab(j)==0,lab(j)==1)), patterns=[lab(j)]),
+     m1>=0, m2>=0,
+     z3.ForAll([q], z3.Implies(z3.And(q>=0,q<m1), z3.And(sa(q)>=0,sa(q)<LEN(p),lab(sa(q))==0,ia(sa(q))==q)), patterns=[sa(q)]),
+     z3.ForAll([j], z3.Implies(z3.And(j>=0,j<LEN(p),lab(j)==0), z3.And(ia(j)>=0,ia(j)<m1,sa(ia(j))==j)), patterns=[ia(j)]),
+     z3.ForAll([q], z3.Implies(z3.And(q>=0,q<m2), z3.And(sb(q)>=0,sb(q)<LEN(p),lab(sb(q))==1,ib(sb(q))==q)), patterns=[sb(q)]),
+     z3.ForAll([j], z3.Implies(z3.And(j>=0,j<LEN(p),lab(j)==1), z3.And(ib(j)>=0,ib(j)<m2,sb(ib(j))==j)), patterns=[ib(j)]),
+    ]
+    # new structure after pop(p); extend([a,b])
+    C2=C+1
+    def LEN2(cc): return z3.If(cc<p, LEN(cc), z3.If(cc<C-1, LEN(cc+1), z3.If(cc==C-1, m1, m2)))
+    def E2(cc,jj): return z3.If(cc<p, E(cc,jj), z3.If(cc<C-1, E(cc+1,jj), z3.If(cc==C-1, E(p,sa(jj)), E(p,sb(jj)))))
+    def OWN2(xx): return z3.If(OWN(xx)<p, OWN(xx), z3.If(OWN(xx)>p, OWN(xx)-1, z3.If(lab(POS(xx))==0, C-1, C)))
+    def POS2(xx): return z3.If(OWN(xx)==p, z3.If(lab(POS(xx))==0, ia(POS(xx)), ib(POS(xx))), POS(xx))
+    g1=z3.Implies(z3.And(x>=0,x<n), z3.And(OWN2(x)>=0,OWN2(x)<C2,POS2(x)>=0,POS2(x)<LEN2(OWN2(x)),E2(OWN2(x),POS2(x))==x))
+    g2=z3.Implies(z3.And(c>=0,c<C2,j>=0,j<LEN2(c)), z3.And(E2(c,j)>=0,E2(c,j)<n,OWN2(E2(c,j))==c,POS2(E2(c,j))==j))
+    ok = ctx.expect_sat("lemma:L-PART/premises-satisfiable", hyp, "partition + child enumerations")
+    for nm, g in (("every-sample-has-its-(cluster,position)", g1), ("every-entry-is-owned-by-its-slot", g2)):
+        ctx.lemma(f"lemma:L-PART/{nm}", hyp, g, detail="partition step for pop(p) + extend([label-0 part, label-1 part])")
+    # base case: clusters = [arange(n)]
+    LEN0 = lambda cc: n
+    E0 = lambda cc, jj: jj
+    b1 = z3.Implies(z3.And(x >= 0, x < n), z3.And(0 >= 0, 0 < 1, x >= 0, x < LEN0(0), E0(0, x) == x))
+    b2 = z3.Implies(z3.And(c >= 0, c < 1, j >= 0, j < LEN0(c)), z3.And(E0(c, j) >= 0, E0(c, j) < n, c == 0, E0(c, j) == j))
+    ctx.lemma("lemma:L-PART/base-case-one-cluster", [n >= 1], z3.And(b1, b2), detail="clusters = [arange(n)]: OWN = 0, POS = identity, E(0, j) = j")
+
+
 def run(ctx):
+    lemma_partition_step(ctx)
     m_step(ctx, "full")
     m_step(ctx, "diag")
     ctx.parallel([lambda c: hier_fit(c, True, True), lambda c: hier_fit(c, False, False), lambda c: hier_fit(c, True, False),
@@ -885,8 +927,8 @@ def run(ctx):
               "L-SUM lemmas: congruence, non-negativity, weighted-average bound, entry <= row sum (each true by induction on the summation "
               "index; not machine-checked), three-index prefix sums as the definition of np.dot",
               "L-MASK: the label-0 and label-1 positions of one prediction partition the positions",
-              "L-PART: replacing one block of a partition by a partition of that block yields a partition (premises are obligations at "
-              "clusters.pop / clusters.extend; the lemma itself is not machine-checked)",
+              "L-PART (machine-checked by z3 as lemma:L-PART/*) is *applied* at the end of the split loop: its premises are obligations at "
+              "clusters.pop / clusters.extend, the induction over loop iterations that chains the step lemma is by the loop invariant",
               "_e_step returns non-negative responsibilities with row sums <= 1 (weights >= 0, pdf >= 0, guard 1e-10): assumed, its body is "
               "not under contract", "_compute_gaussian_probabilities returns an (n, n_clusters_) array or raises: assumed",
               "A1 for the M-step algebra; the initial-responsibility obligation is about exact values (exp(0) = 1) and holds in binary64 too")
